@@ -313,6 +313,20 @@ def accumulation(rep, repo, mod):
         rep.violate('C13.accumulate', mod, wi, 'self.abuf_len / self.abuf', 'abuf must have self.ops[:, 6].max() + 1 rows and `sims` lanes, zero-initialised int32', node=wi)
 
 
+def depends(rep, repo):
+    """The waveform that is summarised is the one _wave_eval writes (kernel rules of C03: initial value, toggle parity incl. the overflow
+    path, bounds, arm agreement) and the accumulation columns 6..8 reach the kernel through the node -> op translation of SimOps
+    (C01.wiring, evaluated): both are part of this check. Rule ids keep their prefix."""
+    from checks import c01, c03
+    from kvstatic.wavekernel import Kernel
+    K = Kernel(repo)
+    c03.initial_value(rep, K)
+    c03.parity(rep, K)
+    c03.bounds(rep, K)
+    c03.siblings(rep, K)
+    c01.wiring_rules(rep, repo)
+
+
 def thorough(rep, repo):
     """Thorough tier: the quick rules plus checker self-validation on the C13 slice of the mutation corpus."""
     from kvstatic import thorough as thorough_mod
